@@ -560,6 +560,8 @@ cdef class CPUDomainManager(DomainManagerBase):
             # reset the length of the arrays
             x_low.reset(); x_high.reset(); y_high.reset(); y_low.reset()
             z_low.reset(); z_high.reset()
+            xt_low.reset(); xt_high.reset(); yt_high.reset(); yt_low.reset()
+            zt_low.reset(); zt_high.reset()
 
             np = x.length
             for i in range(np):
